@@ -541,6 +541,11 @@ def check(ctx):
     item = ts.node.args.args[1].arg
     enc_s = tsp.node.args.args[1].arg
     mk = ctx.sites(tsp, f"self._encoder = codecs.getincrementalencoder({enc_s})($*A)")
+    if not mk:
+        # (the codec class bound to a local first)
+        from .common import origin_of
+        mk = [(s_, e_) for s_, e_ in ctx.sites(tsp, "self._encoder = $K($*A)")
+              if norm(origin_of(tsp.node, e_["K"])) == f"codecs.getincrementalencoder({enc_s})"]
     ctx.ob("R16-d", tsp, "the send side uses one incremental encoder per stream, like the receive side's incremental decoder (a stateless encoder repeats "
            "the byte order mark of utf-16/utf-32 in every item, which the peer decodes as U+FEFF)", len(mk) == 1,
            detail="" if mk else "TextSendStream.__post_init__ does not create `codecs.getincrementalencoder(encoding)(...)`", by=("getincrementalencoder",))
